@@ -453,5 +453,25 @@ def run(F, rep, tier):
                 else:
                     rep.viol('R15.6', '%s|%s|payload' % (p_, s_[2][4]), 'the value of a %s token is computed from %s rather than parsed from the literal text in one piece: the literal no longer denotes exactly (correctly rounded) what its digits spell' % (s_[2][4], sorted(str(o[:2]) for o in bad)), lb_.loc(bb))
     rep.floor('R15.6', 'float literal tokens built', n6, 2)
+    # ---------------- R15.7
+    rep.rule('R15.7', 'the digits of a literal are ASCII / radix digits: the lexer and the exact decimal parser never classify characters with '
+             'char::is_numeric (Unicode Nd/Nl/No: superscripts, fractions, Arabic-Indic digits), which the BigInt / f64 parsers behind the '
+             'reviewed `parse().unwrap()` sites do not accept; is_digit(10) and is_ascii_digit are the same class')
+    n7 = 0
+    bad7 = []
+    for p_ in sorted(F.bodies_raw):
+        if '::promoted' in p_ or not p_.startswith(('lex::', 'decimal::')):
+            continue
+        for c in F.body(p_).calls:
+            last = c.target.rsplit('::', 1)[-1]
+            if 'char' in c.target and last.startswith('is_'):
+                n7 += 1
+                if last in ('is_numeric',):
+                    bad7.append((p_, c))
+    if bad7:
+        rep.viol('R15.7', '%s|is_numeric' % C.fn_key(bad7[0][0]), '%s collects characters with char::is_numeric: `10\u00b2` or `1\u0663` reach a digit parser that rejects them - a panic at a reviewed unwrap, or a wrong token - instead of being an invalid token' % C.fn_key(bad7[0][0]), bad7[0][1].loc())
+    else:
+        rep.ok('R15.7', 'front end', '%d character classification call(s), none Unicode-numeric' % n7)
+    rep.floor('R15.7', 'character classification calls in the front end', n7, 5)
     rep.undecided += ['str::parse::<f64> / BigInt digit semantics', 'recursion depth of nested input']
     return META
